@@ -85,7 +85,7 @@ func introUniverse(uni []*mDef) []*mDef {
 		case "Date":
 			d.Dirs = " @specifiedBy(url: \"https://example.com/date\")"
 		case "tag":
-			d.Locs = []string{"FIELD_DEFINITION", "OBJECT", "FIELD"}
+			d.Locs = []string{"FIELD_DEFINITION", "OBJECT", "FIELD", "INTERFACE", "ENUM", "UNION", "ARGUMENT_DEFINITION"}
 			d.DirArgs = "(\"the label\" name: String = \"t\", weight: Int) repeatable"
 		}
 	}
